@@ -24,6 +24,7 @@ ASSUMPTIONS = ["'scale and similarity alignments reproduce centroid and size' is
                "similarity rotations are compared by cost, not by matrix (the optimum is not unique for few or coplanar points)",
                "TPS exactness is judged only when no singular value of the system is within 3x of the floor"]
 DECIDING_TAPS = ["alignment_ctor", "aligned_source", "alignment_error"]
+REPLAY_PATHS = ['menpo/transform/test']      # suite replay (thorough tier): the repository's own tests under these monitors
 SHARDS = {"quick": 8, "thorough": 16}
 
 
@@ -132,6 +133,10 @@ class QueryMonitor(taps.Monitor):
             ref_e = float(np.linalg.norm(y - t.target.points))
             if abs(float(r) - ref_e) > 1e-8 * max(1.0, ref_e):
                 ctx.fail("alignment_error_is_not_the_distance_between_aligned_source_and_target", cls=cls, mech="query")
+
+
+def replay_case_begin():
+    align.clear_shadow()
 
 
 def setup(ctx):
